@@ -405,6 +405,50 @@ def check_compound(scale, rnd):
         shutil.rmtree(td, ignore_errors=True)
 
 
+def check_high_offsets():
+    """hash / ordered hash files that start beyond 2**31 and 2**32 - 2**10 in a SPARSE file (a few KB really allocated):
+    positions then need the unsigned 32-bit / 64-bit typecodes of the index tables"""
+    from whoosh.filedb.filestore import FileStorage
+    from whoosh.filedb.filetables import HashWriter, HashReader, OrderedHashWriter, OrderedHashReader
+    d = tempfile.mkdtemp(prefix="hi_")
+    st = FileStorage(d)
+    try:
+        for base in (17, 2 ** 31 + 17, 2 ** 32 - 900):
+            keys = [("key%04d" % i).encode("ascii") for i in range(0, 120, 2)]
+            model = dict((k, b"v:" + k) for k in keys)
+            for ordered in (False, True):
+                counts["cases"] += 1
+                nm = "C20-%s-high-offset" % ("ordered" if ordered else "hash")
+
+                def go():
+                    f = st.create_file("big.hsh")
+                    f.seek(base)
+                    hw = (OrderedHashWriter if ordered else HashWriter)(f)
+                    for k in keys:
+                        hw.add(k, model[k])
+                    hw.close()
+                    hr = (OrderedHashReader if ordered else HashReader)(st.open_file("big.hsh"), startoffset=base)
+                    try:
+                        bad = [k for k in keys if hr.get(k) != model[k]]
+                        if bad or hr.get(b"key0001") is not None or sorted(hr.keys()) != keys:
+                            return "map lookups wrong at start offset %d: %r" % (base, bad[:3])
+                        if ordered:
+                            for probe in (b"", b"key0000", b"key0001", b"key0117", b"key0118", b"key0119", b"zzz"):
+                                exp = [k for k in keys if k >= probe]
+                                if hr.closest_key(probe) != (exp[0] if exp else None) or list(hr.keys_from(probe)) != exp \
+                                        or list(hr.items_from(probe)) != [(k, model[k]) for k in exp]:
+                                    return "closest_key/keys_from(%r) wrong at start offset %d" % (probe, base)
+                    finally:
+                        hr.close()
+                    return None
+                ok, out = guarded(nm, go)
+                if ok and out:
+                    fail(nm, out)
+    finally:
+        import shutil
+        shutil.rmtree(d, ignore_errors=True)
+
+
 def main():
     scale, seed = int(sys.argv[1]), int(sys.argv[2])
     tmp = tempfile.mkdtemp(prefix="sb_")
@@ -413,7 +457,7 @@ def main():
     rnd = random.Random(seed)
     for nm, fn in (("idsets", lambda: check_idsets(scale)), ("tables", lambda: check_tables(scale, rnd)),
                    ("codecs", lambda: check_codecs(scale, rnd)), ("sort", lambda: check_sort(scale, rnd)),
-                   ("compound", lambda: check_compound(scale, rnd))):
+                   ("compound", lambda: check_compound(scale, rnd)), ("high-offsets", check_high_offsets)):
         try:
             fn()
         except Exception:
